@@ -1481,6 +1481,12 @@ class ExplicitTag(StandardEncodeMixin, StandardDecodeMixin, Type):
         self.inner = inner
 
     def set_default(self, value):
+        # The inner type may be shared with other members referencing
+        # the same type. Recursive types are linked by identity later
+        # and must not be copied.
+        if not isinstance(self.inner, compiler.Recursive):
+            self.inner = copy(self.inner)
+
         self.inner.set_default(value)
 
     def get_default(self):
